@@ -366,6 +366,20 @@ func schedRun(args []string) int {
 					spec = "X" + strings.Join(parts, ";")
 					tr = rt
 					dist["trigger"]["script"]++
+				case k == 5 && r.Intn(2) == 0: // a real CronTrigger in a fixed-offset location: parser + engine + scheduler end to end
+					exprs := []string{"0 0 12 * * ?", "0 0/5 * * * ?", "15 30 2 L * ?", "0 0 0 ? * MON-FRI", "0 0 9 ? * 6#3", "0 15 10 15W * ? *", "* * * * * ?", "0 0 0 1 1 ? 2030-2040"}
+					e := exprs[r.Intn(len(exprs))]
+					off := []int{0, 3600, -18000, 19800}[r.Intn(4)]
+					loc := time.UTC
+					if off != 0 {
+						loc = time.FixedZone("f", off)
+					}
+					ct, cerr := quartz.NewCronTriggerWithLoc(e, loc)
+					must(cerr)
+					rt.inner = ct
+					spec = fmt.Sprintf("C%s:%d", encRunes(e), off)
+					tr = rt
+					dist["trigger"]["cron"]++
 				case k < 7:
 					d := []int64{-2 * hour, -10 * minute, hour}[r.Intn(3)]
 					rt.inner = quartz.NewRunOnceTrigger(time.Duration(d))
